@@ -18,6 +18,8 @@ def make_row(hs, label):
         return {'x': 1}
     if label == 'A2':
         return {'id': 'a', 'dup': 1}
+    if label == 'I2':
+        return {'id': 2}               # an id that is a valid POSITION for some lengths of the grid
     if label == 'N1M1':
         return {'id': 1000001}         # numeric ids whose usual short renderings (%g, 6 significant digits) coincide
     if label == 'N1M2':
@@ -73,6 +75,8 @@ def row_label(hs, row):
         return 'B'
     if i == 7:
         return 'I7'
+    if i == 2 and not isinstance(i, bool):
+        return 'I2'
     if i == 1000001:
         return 'N1M1'
     if i == 1000002:
@@ -96,7 +100,7 @@ class GridSpec(H.Spec):
         self.hs = hszinc
 
     # ---- roots: a fresh grid, and grids derived from reached states (slices, filter results) -----
-    ROOTS = [['fresh'], ['fresh-unversioned'], ['fresh-reordered']]
+    ROOTS = [['fresh'], ['fresh-unversioned'], ['fresh-reordered'], ['fresh-2.0']]
 
     def roots(self):
         return [list(r) for r in self.ROOTS]
@@ -105,6 +109,10 @@ class GridSpec(H.Spec):
         hs = self.hs
         if root[0] in ('fresh', 'fresh-numeric'):
             g = hs.Grid(version='3.0', metadata={'m': 'meta'}, columns=[('id', []), ('x', [('u', 'kg')]), ('dup', [])])
+            return g, []
+        if root[0] == 'fresh-2.0':
+            # an explicit pre-3.0 version: rows holding a 3.0-only value (label L) are refused with ValueError, like non-dict rows with TypeError
+            g = hs.Grid(version='2.0', metadata={'m': 'meta'}, columns=[('id', []), ('x', [('u', 'kg')]), ('dup', [])])
             return g, []
         if root[0] == 'fresh-reordered':
             # same header as 'fresh', but every ordered map reached its order by relocation, not by appending
@@ -129,7 +137,7 @@ class GridSpec(H.Spec):
         raise HarnessError(root)
 
     def derived_roots(self, g, model, hist, root):
-        if root[0] not in ('fresh', 'fresh-unversioned', 'fresh-reordered', 'fresh-numeric') or len(hist) > 3 or not model:
+        if root[0] not in ('fresh', 'fresh-unversioned', 'fresh-reordered', 'fresh-numeric', 'fresh-2.0') or len(hist) > 3 or not model:
             return []
         out = []
         n = len(model)
@@ -147,6 +155,8 @@ class GridSpec(H.Spec):
         n = len(model)
         ops = []
         rows = self.ROWS + self.NONDICT
+        if str(g.version) == '2.0':
+            rows = ['A', 'E', 'L', 'n5']           # the pre-3.0 grid: ordinary rows, a row it must refuse for its content, a non-dict
         if n < MAXLEN:
             for r in rows:
                 ops.append(('append', r))
@@ -264,16 +274,19 @@ class GridSpec(H.Spec):
             raise HarnessError('unknown op %r' % (op,))
 
         nondict = rows is not None and any(not isinstance(r, dict) for r in rows)
+        refuse_exc = 'TypeError'
+        if not nondict and rows is not None and str(g.version) == '2.0' and any(isinstance(x, (list, dict)) for r in rows for x in r.values()):
+            nondict, refuse_exc = True, 'ValueError'        # refused for its content: the same rules as for a non-dict row
         index_state = 'none' if getattr(g, '_index', 0) is None else 'built'
         sig = {'op': kind, 'index_state': index_state, 'derived': hist[0][0] if hist else '-'}
         if rows is not None:
             sig['row'] = 'non-dict' if nondict else ('with-id' if any('id' in r for r in rows) else 'no-id')
         got = H.outcome(impl)
         if nondict:
-            exp = ('raise', 'TypeError')
+            exp = ('raise', refuse_exc)
             single_refusal = kind in ('append', 'insert', 'setitem') or (kind == 'iadd')
             if kind == 'setitem' and not (-len(before) <= op[1] < len(before)):
-                exp = ('raise-any', ('TypeError', 'IndexError'))
+                exp = ('raise-any', (refuse_exc, 'IndexError'))
         else:
             exp = H.outcome(ref)
         if hist is None:
@@ -291,9 +304,9 @@ class GridSpec(H.Spec):
         else:
             st_ = st
         if nondict:
-            ok = got[0] == 'raise' and (got[1] == 'TypeError' or (exp[0] == 'raise-any' and got[1] in exp[1]))
+            ok = got[0] == 'raise' and (got[1] == refuse_exc or (exp[0] == 'raise-any' and got[1] in exp[1]))
             if not ok:
-                st_.fail('non-dict-row-not-refused', dict(sig, observed=str(got[1] if got[0] == 'raise' else 'accepted')), case, {'op': list(op)})
+                st_.fail('non-dict-row-not-refused' if refuse_exc == 'TypeError' else 'row-with-3.0-only-value-not-refused-with-ValueError', dict(sig, observed=str(got[1] if got[0] == 'raise' else 'accepted')), case, {'op': list(op)})
                 return False
             same = len(cur) == len(before) and all(x is y for x, y in zip(cur, before))
             if single_refusal and not same:
@@ -439,7 +452,7 @@ class GridSpec(H.Spec):
 
 class C14Quick(GridSpec):
     prop = 'C14'
-    ROWS = ['E', 'A', 'B', 'X', 'A2', 'XF']
+    ROWS = ['E', 'A', 'I2', 'X', 'A2', 'XF']
     LOOKUPS = True
 
     def lookup_keys(self):
@@ -447,7 +460,7 @@ class C14Quick(GridSpec):
 
 
 class C14Thorough(C14Quick):
-    ROWS = ['E', 'A', 'B', 'X', 'A2', 'XF', 'XT', 'I7', 'R']
+    ROWS = ['E', 'A', 'B', 'I2', 'X', 'A2', 'XF', 'XT', 'I7', 'R']
 
 
 class C15Quick(GridSpec):
